@@ -1012,3 +1012,22 @@ fn test_polyeval() {
     assert_eq!(zn.to_int(vals[1]).digits()[0], 103050709);
     assert_eq!(zn.to_int(vals[2]).digits()[0], 1_003_005_007_009);
 }
+
+/// Verification accessors for the private power series routines (cfg(yamaquasi_verif) only).
+#[cfg(yamaquasi_verif)]
+pub mod vhook {
+    use super::*;
+
+    /// 1/p modulo x^len(p)
+    pub fn inv_mod_xn(zr: &PolyRing, p: &[MInt]) -> Vec<MInt> {
+        let mut z = vec![MInt::default(); p.len()];
+        let mut tmp = vec![MInt::default(); 4 * p.len() + 16];
+        Poly::_inv_mod_xn(zr, &mut z, p, &mut tmp);
+        z
+    }
+
+    /// whether the ring carries the multi-prime NTT context (FFT paths enabled)
+    pub fn has_ntt(zr: &PolyRing) -> bool {
+        zr.mzp.is_some()
+    }
+}
